@@ -14,7 +14,7 @@ RULE = ("single trees: every rooted shape with 2-5 leaves (polytomies included) 
         "root; about 40% of all inputs with valid-but-unusual decorations (vlib.gen.exotic: extra flag bits, ALL nodes "
         "renumbered so that samples are not listed first, mutation-free sites, allele strings, populations, mutation "
         "times), 15% with exactly tied node times; cache_inside on/off, num_threads None/1(/2), numpy-typed option "
-        "values; thorough: 12 larger inputs (12-25 samples, oracle only); a 'heavy mutation load' family (24 quick / 150 thorough, "
+        "values; thorough: 12 larger inputs (12-25 samples, oracle only); a 'heavy mutation load' family (24 quick / 80 thorough, "
         "correspondence and oracle): hand-built 2-4 tree inputs in which one node has a different parent on every "
         "interval, and msprime inputs, with 50-300 mutations on every parent edge of the multi-parent nodes and none "
         "below them, so each edge's Poisson vector is 1e-100..1e-240; the rule is always re-evaluated in log space "
@@ -54,7 +54,7 @@ def gen_cases(ctx, n_single, n_multi):
         cases.append(D.make_case(rng, d, kind="multi", **D.random_options(rng, ctx.tier == "thorough")))
     # heavy mutation load on multi-parent nodes: each parent edge's Poisson vector is tiny (1e-100 .. 1e-240)
     # although nothing in the unchanged algorithm underflows (it divides every vector by its own maximum)
-    for _ in range(ctx.n(24, 150)):
+    for _ in range(ctx.n(24, 80)):
         if rng.random() < 0.5:
             d = D.multiparent_family(rng)
         else:
@@ -172,7 +172,7 @@ def nontrivial(case, ins, idx, order):
 
 
 def run(ctx, model_ok=True):
-    cases = gen_cases(ctx, ctx.n(60, 400), ctx.n(60, 400))
+    cases = gen_cases(ctx, ctx.n(60, 300), ctx.n(60, 300))
     body = []
     expect = []
     for k, case in enumerate(cases):
